@@ -251,6 +251,67 @@ def import_programs():
     return out
 
 
+# every kind of binding the renamer can rewrite, in one module: under a taint trigger none of them may move
+EVERY_BINDING = '''import os.path as path_module, collections
+from itertools import chain as chain_function
+module_value = 1
+def plain_function(first_param, second_param=2, /, third_param=3, *rest_params, keyword_param=4, **other_params):
+    local_value = first_param + second_param + third_param + keyword_param + len(rest_params) + len(other_params)
+    def inner_function(inner_param):
+        nonlocal local_value
+        local_value = local_value + inner_param
+        return local_value
+    class LocalClass:
+        class_attribute = local_value
+        def method(self, method_param, *method_rest, **method_others):
+            return self, method_param, method_rest, method_others
+        @classmethod
+        def class_method(cls, class_param, /):
+            return cls, class_param
+        @staticmethod
+        def static_method(static_param):
+            return static_param
+    import json as json_module
+    from os import sep as separator_value
+    try:
+        pass
+    except ValueError as caught_error:
+        raise caught_error
+    with open(path_module.devnull) as opened_file, open(path_module.devnull):
+        pass
+    for loop_value, (other_loop_value, *more_loop_values) in []:
+        pass
+    if (walrus_value := inner_function(1)):
+        pass
+    match first_param:
+        case {'key': mapped_value, **rest_mapping}:
+            pass
+        case [first_item, *other_items] | (first_item, other_items):
+            pass
+        case LocalClass(class_attribute=captured_attribute) as whole_value:
+            pass
+    comprehension_result = [comp_value + local_value for comp_value in rest_params if (comp_walrus := comp_value)]
+    generator_result = {key_value: item_value for key_value, item_value in other_params.items()}
+    star_lambda = lambda *lambda_rest, **lambda_others: (lambda_rest, lambda_others)
+    posonly_lambda = lambda lambda_first, /, lambda_second=2, *, lambda_keyword=3: (lambda_first, lambda_second, lambda_keyword)
+    walrus_lambda = lambda lambda_param: (lambda_walrus := lambda_param) + lambda_walrus
+    nested_lambda = lambda outer_lambda_param: lambda *inner_lambda_rest: (outer_lambda_param, inner_lambda_rest)
+    global module_value
+    module_value = local_value
+    del local_value
+    return json_module, separator_value, star_lambda, posonly_lambda, walrus_lambda, nested_lambda, comprehension_result, generator_result
+async def coroutine_function(awaited_param, *coroutine_rest):
+    async with awaited_param as async_context:
+        async for async_item in async_context:
+            yield [async_comp async for async_comp in async_item]
+module_lambda = lambda *module_lambda_rest, **module_lambda_others: module_lambda_rest
+class ModuleClass(collections.OrderedDict):
+    attribute_lambda = lambda self, *attribute_rest: attribute_rest
+    def method(self, /, positional_method_param, *, keyword_method_param=None):
+        return [self for self in [positional_method_param]]
+'''
+
+
 def class_import_programs():
     """runnable: imports in a class body — directly or inside an `if` / `try` / `with` / `for` / `while` block of it — of a class at
     module level, in a function, or in another class; the imported names are class attributes and are read often"""
